@@ -204,8 +204,36 @@ class _Subst(ast.NodeTransformer):
     visit_Lambda = visit_FunctionDef
 
 
+def _subst_module_callables(prog, module, node):
+    """names of the module bound once, at module level, to a pure function value (`_args_of = operator.attrgetter("a", "b")`,
+    `_esc = functools.partial(escape, entities=...)`) read as that value where they are used as a function"""
+    import copy as _cp
+
+    assigns = getattr(module, "assigns", None) or {}
+    cand = {k: v for k, v in assigns.items() if isinstance(v, ast.Call) and ast.unparse(v.func) in (
+        "attrgetter", "operator.attrgetter", "partial", "functools.partial", "itemgetter", "operator.itemgetter", "methodcaller", "operator.methodcaller")}
+    if not cand:
+        return node
+    bound = {x.id for x in ast.walk(node) if isinstance(x, ast.Name) and isinstance(x.ctx, (ast.Store, ast.Del))}
+    bound |= {a.arg for fn in ast.walk(node) if isinstance(fn, (ast.FunctionDef, ast.Lambda)) for a in fn.args.args + fn.args.kwonlyargs}
+
+    class S(ast.NodeTransformer):
+        def visit_Call(self, c):
+            self.generic_visit(c)
+            if isinstance(c.func, ast.Name) and c.func.id in cand and c.func.id not in bound:
+                c.func = _cp.deepcopy(cand[c.func.id])
+            elif ast.unparse(c.func) in ("map", "filter", "itertools.filterfalse", "filterfalse", "itertools.starmap", "starmap") and c.args \
+                    and isinstance(c.args[0], ast.Name) and c.args[0].id in cand and c.args[0].id not in bound:
+                c.args[0] = _cp.deepcopy(cand[c.args[0].id])
+            return c
+
+    return S().visit(node)
+
+
 def _callee_body(prog, callee, skip_self, call, counter, self_expr):
     node = callee.node if isinstance(callee, FuncInfo) else callee
+    if isinstance(callee, FuncInfo):
+        node = _subst_module_callables(prog, callee.module, copy.deepcopy(node))
     d = desugar(node)
     body = [s for s in d.body if not (isinstance(s, ast.Expr) and isinstance(s.value, ast.Constant) and isinstance(s.value.value, str))]
     body = _normalise_tail(body)
@@ -430,7 +458,7 @@ def _pure_arg(v):
 def expand(prog, f, depth=2, local_only=False, skip_names=()):
     # local_only: inline only helpers of f's own module (calls into other modules stay as named operations)
     counter = [0]
-    root = desugar(f.node)
+    root = desugar(_subst_module_callables(prog, f.module, copy.deepcopy(f.node)))
 
     def walk_block(stmts, owner, level, local_defs):
         out = []
